@@ -28,10 +28,19 @@ import traceback
 
 def build(case):
     import mouette as M
+    import numpy as np
+    idx = {"np64": np.int64, "np32": np.int32}.get((case.get("call") or {}).get("idx"), int)
     d = M.mesh.RawMeshData()
     d.vertices += [M.Vec(float(x), float(y), float(z)) for x, y, z in case["verts"]]
-    d.faces += [tuple(int(a) for a in f) for f in case["faces"]]
+    d.faces += [tuple(idx(a) for a in f) for f in case["faces"]]
     return M.mesh.SurfaceMesh(d)
+
+
+def flag(form, b):
+    """a boolean argument in the representation the call form asks for: bool / the int 1 or 0 / numpy.bool_"""
+    import numpy as np
+    r = form.get("flags", "bool")
+    return int(b) if r == "int" else np.bool_(b) if r == "np" else bool(b)
 
 
 def call_form(form, mode, cotan, corners):
@@ -54,15 +63,15 @@ def call_form(form, mode, cotan, corners):
     elif fm == "kw":
         kw["boundary_mode"] = mode
     if fc == "pos":
-        args.append(cotan)
+        args.append(flag(form, cotan))
     elif fc == "kw":
-        kw["use_cotan"] = cotan
+        kw["use_cotan"] = flag(form, cotan)
     if fv == "pos":
         args.append(False)
     elif fv == "kw":
         kw["verbose"] = False
     if not (form.get("corners", "kw") == "omit" and corners):
-        kw["save_on_corners"] = corners
+        kw["save_on_corners"] = flag(form, corners)
     if form.get("cb") == "none":
         kw["custom_boundary"] = None
     if form.get("uv_attr") == "none":
@@ -83,7 +92,8 @@ def one_run(case, corners, mesh=None):
         bv = list(mesh.boundary_vertices)
         where = {v: k for k, v in enumerate(case["cycle"])}
         rows = [[float(case["poly"][where[v]][0]), float(case["poly"][where[v]][1])] for v in bv]
-        kw["custom_boundary"] = np.array(rows, dtype=float).reshape((len(rows), 2))
+        dt = np.float32 if (case.get("call") or {}).get("cb_dtype") == "f32" else float
+        kw["custom_boundary"] = np.array(rows, dtype=dt).reshape((len(rows), 2))
         out["custom_rows"] = rows
         mode = "circle"
     else:
@@ -93,9 +103,21 @@ def one_run(case, corners, mesh=None):
     out["call"] = "TutteEmbedding(mesh%s%s)" % ("".join(", %r" % a for a in args),
                                                  "".join(", %s=%s" % (k, "<array>" if k == "custom_boundary" and v is not None else repr(v))
                                                          for k, v in kw2.items()))
+    invoke = (case.get("call") or {}).get("invoke", "run")
     try:
         t = TutteEmbedding(mesh, *args, **kw2)
-        t.run()
+        if invoke == "call":
+            if t() is not t:
+                raise RuntimeError("TutteEmbedding(...)() did not return the worker")
+        elif invoke == "twice":
+            t.run()
+            t.run()
+        elif invoke == "flat-rerun":
+            t.run()
+            _ = t.flat_mesh
+            t.run()
+        else:
+            t.run()
     except Exception as ex:  # the gate raises a bare Exception
         msg = str(ex)
         out["status"] = "rejected" if "not a topological disk" in msg else "error:%s: %s" % (type(ex).__name__, msg[:200])
@@ -113,6 +135,8 @@ def one_run(case, corners, mesh=None):
     if case["cotan"]:
         cot = mesh.face_corners.get_attribute("cotan")
         out["cot"] = [float(cot[c]) for c in range(len(mesh.face_corners))]
+    if "custom_boundary" in kw and kw["custom_boundary"] is not None:
+        out["custom_after"] = [[float(x) for x in r] for r in kw["custom_boundary"]]
     out["verts_after"] = [[float(mesh.vertices[v][k]) for k in range(3)] for v in range(len(mesh.vertices))]
     out["corner_vertex"] = [int(v) for v in mesh.face_corners]
     out["faces_seen"] = [[int(a) for a in f] for f in mesh.faces]
@@ -131,10 +155,30 @@ def run_sequence(case):
     for st in case["seq"]:
         view = dict(case, mode=st["mode"], cotan=st["cotan"], call=st.get("call"))
         try:
+            for v, xyz in st.get("move") or []:      # the caller moves vertices of the mesh between two embeddings
+                mesh.vertices[int(v)] = M.Vec(float(xyz[0]), float(xyz[1]), float(xyz[2]))
+                view["verts"] = [list(p) for p in view["verts"]]
+                view["verts"][int(v)] = [float(x) for x in xyz]
+                case = dict(case, verts=view["verts"])
             if st.get("pre") == "cotangent":
                 M.attributes.cotangent(mesh)
             elif st.get("pre") == "angles":
                 M.attributes.corner_angles(mesh)
+            elif st.get("pre") == "uv_garbage":   # pre-existing attributes with the embedding's name, arbitrary values
+                for cont in (mesh.vertices, mesh.face_corners):
+                    a = cont.create_attribute("uv_coords", float, 2, dense=True)
+                    for k in range(len(cont)):
+                        a[k] = M.Vec(7.5, -3.25)
+            elif st.get("pre") == "bad-mode":     # a constructor call that legitimately raises, then the mesh is used again
+                from mouette.processing.parametrization import TutteEmbedding
+                try:
+                    TutteEmbedding(mesh, "triangle")
+                    steps.append({"status": "error:boundary_mode 'triangle' was accepted"})
+                    continue
+                except Exception as ex:
+                    if type(ex).__name__ != "InvalidArgumentValueError":
+                        steps.append({"status": "error:boundary_mode 'triangle' raised %s" % type(ex).__name__})
+                        continue
             steps.append(run_case(view, mesh))
         except Exception as ex:
             steps.append({"status": "error:driver %s: %s" % (type(ex).__name__, str(ex)[:300])})
@@ -162,6 +206,7 @@ def run_case(case, mesh=None):
              verts_after=b["verts_after"], call=a.get("call"))
     if "custom_rows" in a:
         o["custom_rows"] = a["custom_rows"]
+        o["custom_after"] = b.get("custom_after")
     if "cot" in a:
         o["cot"] = a["cot"]
         o["cot_corner_run"] = b["cot"]
